@@ -35,6 +35,14 @@ type c14Target struct {
 
 // targets with custom unfolders: a recursive type filled by a processing unfolder (its temporary cell holds further values
 // of the type itself), an Expander, a registered primitive unfolder, and containers of them
+// a processing unfolder whose temporary cell has a type that must be refused - at document time, not by SetTarget
+type c14PoisonElem struct {
+	P   *c14PoisonList
+	Bad [3]int
+}
+type c14PoisonList []c14PoisonElem
+type c14Poisoned struct{ X int }
+
 type c14Tree struct {
 	Name string
 	Kids []c14Tree
@@ -401,6 +409,14 @@ func c14Families(tier string) []engine.Family {
 			doc{name: "[]SeedBadRec<-array (unsupported)", mk: func() reflect.Value { return reflect.New(reflect.TypeOf([]SeedBadRec{})) }, evs: append(append([]model.Event{model.ArrStart(-1, 0)}, one...), model.ArrEnd()), cuts: []int{6}},
 			doc{name: "**SeedBadRec<-object (unsupported)", mk: func() reflect.Value { return reflect.New(reflect.TypeOf((**SeedBadRec)(nil))) }, evs: one, cuts: []int{len(one)}})
 	}
+	// a refusal that happens while a document is being processed (the cell type of a processing unfolder), then targets
+	// of the types that were compiled on the way
+	{
+		empty := []model.Event{model.ArrStart(-1, 0), model.ArrEnd()}
+		docs = append(docs, doc{name: "c14Poisoned<-array (cell type refused at document time)", mk: func() reflect.Value { return reflect.New(reflect.TypeOf(c14Poisoned{})) }, evs: empty, cuts: []int{1, 2}},
+			doc{name: "*c14PoisonList<-array (unsupported)", mk: func() reflect.Value { return reflect.New(reflect.TypeOf((*c14PoisonList)(nil))) },
+				evs: []model.Event{model.ArrStart(-1, 0), model.ObjStart(-1, 0), model.KeyRef("p"), model.ArrStart(-1, 0), model.ArrEnd(), model.ObjEnd(), model.ArrEnd()}, cuts: []int{7}})
+	}
 	// documents nested beyond the unfolder's inline stacks (32 entries; they grow at 33 and 65): abandoned around those depths
 	{
 		var deepEvs []model.Event
@@ -439,7 +455,7 @@ func c14Families(tier string) []engine.Family {
 			ops = append(ops, op{di, k})
 		}
 	}
-	followUps := []int{0, 2, 3, 5, 8, 9, 10, 11, 12}
+	followUps := []int{0, 2, 3, 5, 8, 9, 10, 11, 12, 17}
 	skip := map[string]bool{"reg": true, "userReg": true, "keyCache": true}
 	m := &engine.BFSModel{Name: "gotype.Unfolder(abandon+Reset)", NumOps: len(ops) + len(followUps),
 		OpName: func(i int) string {
@@ -453,7 +469,9 @@ func c14Families(tier string) []engine.Family {
 			return fmt.Sprintf("abandon(%s after event %d: %s)", docs[o.d].name, o.k, docs[o.d].evs[o.k-1])
 		},
 		Run: func(h []int, opi int) (string, string, string, string) {
-			u, err := gotype.NewUnfolder(nil)
+			u, err := gotype.NewUnfolder(nil, gotype.Unfolders(func(to *c14Poisoned) (interface{}, func(*c14Poisoned, interface{}) error) {
+				return new(c14PoisonList), func(*c14Poisoned, interface{}) error { return nil }
+			}))
 			if err != nil {
 				return "", "", "", err.Error()
 			}
